@@ -12,6 +12,7 @@ structure RoundCfg (cfg : Cfg) : Prop where
   h264Min : cfg.h264Min ≤ 1
   nri : cfg.stapaRewritesNri = false
   fuaMin : cfg.fuaMin ≤ 3
+  keepsF : cfg.fuaKeepsF = true
   h265Min : cfg.h265Min ≤ 2
   fuMin : cfg.fuMin ≤ 3
 
@@ -44,26 +45,45 @@ theorem writeFrame_ready (cfg : Cfg) (ok : Bytes → Bool) (st : VSt) (ts : UInt
       Bool.false_eq_true, if_false, frameOf]
     exact ⟨_, rfl, ⟨rfl, rfl⟩, rfl⟩
 
-theorem nalOk_ne_nil {n : Bytes} (h : nalOk264 n = true) : n ≠ [] := by
+theorem nalOk_ne_nil {n : Bytes} (h : nalOk264F n = true) : n ≠ [] := by
   cases n with
-  | nil => simp [nalOk264] at h
+  | nil => simp [nalOk264F] at h
   | cons _ _ => simp
 
-theorem nalOk_type {b : UInt8} {bs : Bytes} (h : nalOk264 (b :: bs) = true) :
-    b < 0x80 ∧ (b &&& 0x1f) < 24 := by
-  simp only [nalOk264, Bool.and_eq_true, decide_eq_true_eq] at h
-  refine ⟨h.1.1, ?_⟩
+theorem nalOk_type {b : UInt8} {bs : Bytes} (h : nalOk264F (b :: bs) = true) :
+    (b &&& 0x1f) < 24 := by
+  simp only [nalOk264F, Bool.and_eq_true, decide_eq_true_eq] at h
   have := h.2
   exact UInt8.lt_of_le_of_lt this (by decide)
 
+/-- the F-bit-free legality is weaker than `legal264`: every theorem below covers `legal264` streams -/
+theorem nalOk264F_of_nalOk264 {n : Bytes} (h : nalOk264 n = true) : nalOk264F n = true := by
+  cases n with
+  | nil => simp [nalOk264] at h
+  | cons b bs =>
+    simp only [nalOk264, Bool.and_eq_true, decide_eq_true_eq] at h
+    simp [nalOk264F, h.1.2, h.2]
+
+theorem legal264F_of_legal264 {it : Item} (h : legal264 it = true) : legal264F it = true := by
+  cases it with
+  | single ts m n => exact nalOk264F_of_nalOk264 (by simpa [legal264] using h)
+  | agg ts m ns =>
+    simp only [legal264, Bool.and_eq_true, List.all_eq_true, decide_eq_true_eq] at h
+    simp only [legal264F, Bool.and_eq_true, List.all_eq_true, decide_eq_true_eq]
+    exact ⟨h.1, fun n hn => ⟨nalOk264F_of_nalOk264 (h.2 n hn).1, (h.2 n hn).2⟩⟩
+  | frag ts m n cuts =>
+    simp only [legal264, Bool.and_eq_true] at h
+    simp only [legal264F, Bool.and_eq_true]
+    exact ⟨nalOk264F_of_nalOk264 h.1, h.2⟩
+
 /-- a single NAL unit packet -/
 theorem single_step (cfg : Cfg) (hc : RoundCfg cfg) (ok : Bytes → Bool) (st : VSt) (s : UInt16) (ts : UInt32) (m : Bool)
-    (nal : Bytes) (hr : st.ready = true) (hn : nalOk264 nal = true) (hf : notFiller nal = true) :
+    (nal : Bytes) (hr : st.ready = true) (hn : nalOk264F nal = true) (hf : notFiller nal = true) :
     ∃ st', h264Step cfg ok st ⟨s, ts, m, nal⟩ = ⟨st', [frameOf st.base (ts, nal)], .ok⟩ ∧ Keeps st st' ∧ st'.frags = st.frags := by
   cases nal with
-  | nil => simp [nalOk264] at hn
+  | nil => simp [nalOk264F] at hn
   | cons b bs =>
-    have ht := (nalOk_type hn).2
+    have ht := nalOk_type hn
     have hlen : ¬ (b :: bs).length < cfg.h264Min := by
       have := hc.h264Min; simp only [List.length_cons]; omega
     simp only [h264Step, hlen, if_false, ht, if_true]
@@ -81,7 +101,7 @@ theorem aggBody_eq_nil {ns : List Bytes} (h : aggBody ns = []) : ns = [] := by
 /-- the STAP-A loop on the aggregation body of well-formed units -/
 theorem stapaLoop_agg (cfg : Cfg) (hc : RoundCfg cfg) (ok : Bytes → Bool) (hdr : UInt8) (ts : UInt32) :
     ∀ (ns : List Bytes) (fuel : Nat) (st : VSt) (acc : List Frame),
-      ns ≠ [] → (∀ n ∈ ns, nalOk264 n = true ∧ n.length < 65536 ∧ notFiller n = true) →
+      ns ≠ [] → (∀ n ∈ ns, nalOk264F n = true ∧ n.length < 65536 ∧ notFiller n = true) →
       ns.length ≤ fuel → st.ready = true →
       ∃ st', stapaLoop cfg ok hdr ts fuel st (aggBody ns) acc
           = ⟨st', acc ++ ns.map (fun n => frameOf st.base (ts, n)), .ok⟩ ∧ Keeps st st' ∧ st'.frags = st.frags := by
@@ -134,7 +154,7 @@ theorem length_le_aggBody (ns : List Bytes) : ns.length ≤ (aggBody ns).length 
 /-- one STAP-A packet -/
 theorem agg_step (cfg : Cfg) (hc : RoundCfg cfg) (ok : Bytes → Bool) (st : VSt) (s : UInt16) (ts : UInt32) (m : Bool)
     (ns : List Bytes) (hr : st.ready = true) (hne : ns ≠ [])
-    (hall : ∀ n ∈ ns, nalOk264 n = true ∧ n.length < 65536 ∧ notFiller n = true) :
+    (hall : ∀ n ∈ ns, nalOk264F n = true ∧ n.length < 65536 ∧ notFiller n = true) :
     ∃ st', h264Step cfg ok st ⟨s, ts, m, stapaHdr ns :: aggBody ns⟩
         = ⟨st', ns.map (fun n => frameOf st.base (ts, n)), .ok⟩ ∧ Keeps st st' ∧ st'.frags = st.frags := by
   have hlen : ¬ (stapaHdr ns :: aggBody ns).length < cfg.h264Min := by
@@ -168,7 +188,7 @@ theorem fuaJoin_append (a : List Pkt) (p : Pkt) : fuaJoin (a ++ [p]) = fuaJoin a
   simp [fuaJoin]
 
 /-- the continuation fragments of a FU-A unit, from a state holding the fragments so far -/
-theorem fua_rest (cfg : Cfg) (hc : RoundCfg cfg) (ok : Bytes → Bool) (h : UInt8) (hh : h < 0x80)
+theorem fua_rest (cfg : Cfg) (hc : RoundCfg cfg) (ok : Bytes → Bool) (h : UInt8)
     (hfil : (h &&& 0x1f) ≠ 12) (ts : UInt32) (m : Bool) :
     ∀ (ds : List Bytes) (s : UInt16) (st : VSt) (l : Pkt),
       ds ≠ [] → (∀ d ∈ ds, d ≠ []) → st.ready = true → st.frags.getLast? = some l → l.seq = s - 1 →
@@ -208,7 +228,7 @@ theorem fua_rest (cfg : Cfg) (hc : RoundCfg cfg) (ok : Bytes → Bool) (h : UInt
           | cons _ _ => rfl
         simp only [vStep, h264Step, hlen1, if_false, fua_ind_type, h28a, h28b, if_true, h264FuA, hlen2, hs,
           decide_false, Bool.not_false, Bool.and_true, hemp, Bool.and_false, Bool.false_eq_true, hlast, hseq,
-          bne_self_eq_false, he, fuaJoin_append, fua_rebuild h false true hh, List.drop_succ_cons, List.drop_zero]
+          bne_self_eq_false, he, fuaJoin_append, hc.keepsF, if_true, fua_rebuild h false true, List.drop_succ_cons, List.drop_zero]
       obtain ⟨st', hw, hk, hf⟩ := writeFrame_ready cfg ok { st with frags := [] } ts (h :: (fuaJoin st.frags ++ d)) hr
         (by simp) (by simpa [notFiller] using hfil)
       refine ⟨st', ?_, ⟨hk.ready, hk.base⟩, hf⟩
@@ -272,16 +292,15 @@ theorem chunks_all_ne (cs : List Nat) : ∀ bs : Bytes, (∀ c ∈ cs, 1 ≤ c) 
 
 /-- one fragmented unit: start fragment, then `fua_rest` -/
 theorem frag_item (cfg : Cfg) (hc : RoundCfg cfg) (ok : Bytes → Bool) (st : VSt) (s : UInt16) (ts : UInt32) (m : Bool)
-    (nal : Bytes) (cuts : List Nat) (hr : st.ready = true) (hl : legal264 (.frag ts m nal cuts) = true)
+    (nal : Bytes) (cuts : List Nat) (hr : st.ready = true) (hl : legal264F (.frag ts m nal cuts) = true)
     (hfil : notFiller nal = true) :
     ∃ st', vRun cfg ok .h264 st (mkPkts ts m s (payloads264 (.frag ts m nal cuts)))
         = (st', [frameOf st.base (ts, nal)], .ok) ∧ Keeps st st' := by
-  simp only [legal264, Bool.and_eq_true] at hl
+  simp only [legal264F, Bool.and_eq_true] at hl
   obtain ⟨hok, hcut⟩ := hl
   cases nal with
-  | nil => simp [nalOk264] at hok
+  | nil => simp [nalOk264F] at hok
   | cons h data =>
-    have hh := (nalOk_type hok).1
     have hf12 : (h &&& 0x1f) ≠ 12 := by simpa [notFiller] using hfil
     simp only [cutsOk, Bool.and_eq_true, Bool.not_eq_true', List.all_eq_true, decide_eq_true_eq,
       List.length_cons, Nat.add_sub_cancel] at hcut
@@ -321,7 +340,7 @@ theorem frag_item (cfg : Cfg) (hc : RoundCfg cfg) (ok : Bytes → Bool) (st : VS
         simp only [p, vStep, h264Step, hlen1, if_false, fua_ind_type, h28a, h28b, if_true, h264FuA, hlen2, hs,
           decide_true, Bool.not_true, Bool.and_false, Bool.false_and, Bool.false_eq_true, List.getLast?_nil, he,
           List.nil_append]
-      obtain ⟨st', hrun, hk, _⟩ := fua_rest cfg hc ok h hh hf12 ts m (d1 :: ds) (s + 1) { st with frags := [p] } p (by simp)
+      obtain ⟨st', hrun, hk, _⟩ := fua_rest cfg hc ok h hf12 ts m (d1 :: ds) (s + 1) { st with frags := [p] } p (by simp)
         (fun x hx => hall x (List.mem_cons_of_mem _ hx)) hr (by simp) (by simp [p])
       refine ⟨st', ?_, ⟨hk.ready, hk.base⟩⟩
       rw [vRun_cons cfg ok .h264 st p _ _ _ hstep, hrun]
@@ -361,12 +380,12 @@ theorem vRun_append (cfg : Cfg) (ok : Bytes → Bool) (c : VCodec) :
       simp
 
 theorem item264 (cfg : Cfg) (hc : RoundCfg cfg) (ok : Bytes → Bool) (st : VSt) (s : UInt16) (it : Item)
-    (hr : st.ready = true) (hl : legal264 it = true) (hf : itemNoFiller it = true) :
+    (hr : st.ready = true) (hl : legal264F it = true) (hf : itemNoFiller it = true) :
     ∃ st', vRun cfg ok .h264 st (mkPkts it.ts it.marker s (payloads264 it))
         = (st', it.units.map (frameOf st.base), .ok) ∧ Keeps st st' := by
   cases it with
   | single ts m nal =>
-    simp only [legal264] at hl
+    simp only [legal264F] at hl
     simp only [itemNoFiller, Item.nals, List.all_cons, List.all_nil, Bool.and_true] at hf
     obtain ⟨st', hs, hk, _⟩ := single_step cfg hc ok st s ts m nal hr hl hf
     refine ⟨st', ?_, hk⟩
@@ -374,7 +393,7 @@ theorem item264 (cfg : Cfg) (hc : RoundCfg cfg) (ok : Bytes → Bool) (st : VSt)
     rw [vRun_cons cfg ok .h264 st _ [] st' _ (by simpa [vStep] using hs)]
     simp [vRun_nil]
   | agg ts m ns =>
-    simp only [legal264, Bool.and_eq_true, Bool.not_eq_true', List.all_eq_true, decide_eq_true_eq] at hl
+    simp only [legal264F, Bool.and_eq_true, Bool.not_eq_true', List.all_eq_true, decide_eq_true_eq] at hl
     simp only [itemNoFiller, Item.nals, List.all_eq_true] at hf
     obtain ⟨hne, hall⟩ := hl
     have hne' : ns ≠ [] := by
@@ -393,7 +412,7 @@ theorem item264 (cfg : Cfg) (hc : RoundCfg cfg) (ok : Bytes → Bool) (st : VSt)
 /-- C06 round trip (H.264), from ANY state whose metadata is ready -/
 theorem h264_roundtrip (cfg : Cfg) (hc : RoundCfg cfg) (ok : Bytes → Bool) :
     ∀ (items : List Item) (st : VSt) (s : UInt16), st.ready = true →
-      (∀ it ∈ items, legal264 it = true ∧ itemNoFiller it = true) →
+      (∀ it ∈ items, legal264F it = true ∧ itemNoFiller it = true) →
       ∃ st', vRun cfg ok .h264 st (packets264 s items) = (st', (units items).map (frameOf st.base), .ok) ∧ Keeps st st' := by
   intro items
   induction items with
